@@ -204,7 +204,23 @@ pub fn tokenize(line: &[u8]) -> Result<(String, Vec<Vec<u8>>), String> {
 }
 
 /// The frame (canonical + encoded) a successful `req <id>` produces.
+fn alpha_key(mut n: u64) -> String {
+    let mut s = String::from("k");
+    loop {
+        s.push((b'a' + (n % 26) as u8) as char);
+        n /= 26;
+        if n == 0 {
+            break;
+        }
+    }
+    s
+}
+
 pub fn req_frame(id: u64, fields: u32, value_len: u32, binary: Option<u32>) -> (CFrame, Vec<u8>, Vec<(usize, usize)>) {
+    req_frame_keys(id, fields, value_len, binary, false)
+}
+
+pub fn req_frame_keys(id: u64, fields: u32, value_len: u32, binary: Option<u32>, distinct_keys: bool) -> (CFrame, Vec<u8>, Vec<(usize, usize)>) {
     let mut f = CFrame::default();
     let mut bytes = Vec::new();
     let mut payloads = Vec::new();
@@ -215,8 +231,13 @@ pub fn req_frame(id: u64, fields: u32, value_len: u32, binary: Option<u32>) -> (
         for j in 0..value_len {
             v.push((b'a' + ((j + k) % 26) as u8) as char);
         }
-        bytes.extend_from_slice(format!("v: {}\n", v).as_bytes());
-        f.fields.push(("v".into(), v));
+        let key = if distinct_keys {
+            alpha_key(id * 64 + k as u64)
+        } else {
+            "v".to_string()
+        };
+        bytes.extend_from_slice(format!("{}: {}\n", key, v).as_bytes());
+        f.fields.push((key, v));
     }
     if let Some(n) = binary {
         let data: Vec<u8> = (0..n as u64)
@@ -577,8 +598,13 @@ impl SimMpd {
                     }
                     return Err(ack(code, index, "req", &format!("failed {}", id)));
                 }
-                let (frame, bytes, payloads) =
-                    req_frame(id, shape.fields, shape.value_len, shape.binary);
+                let (frame, bytes, payloads) = req_frame_keys(
+                    id,
+                    shape.fields,
+                    shape.value_len,
+                    shape.binary,
+                    shape.distinct_keys,
+                );
                 Ok(CmdOut {
                     frame,
                     bytes,
@@ -707,8 +733,10 @@ impl SimMpd {
                 f.fields.push(("size".into(), size.to_string()));
                 bytes.extend_from_slice(format!("size: {}\n", size).as_bytes());
                 if let Some(m) = &mime {
-                    f.fields.push(("type".into(), m.clone()));
-                    bytes.extend_from_slice(format!("type: {}\n", m).as_bytes());
+                    if offset == 0 || !pic.mime_only_first_chunk {
+                        f.fields.push(("type".into(), m.clone()));
+                        bytes.extend_from_slice(format!("type: {}\n", m).as_bytes());
+                    }
                 }
                 bytes.extend_from_slice(format!("binary: {}\n", n).as_bytes());
                 let s = bytes.len();
